@@ -260,6 +260,96 @@ Theorem C08_callable_irrelevant : forall r,
   startup subclass (robot_forget_callable r) = startup subclass r.
 Proof. exact (callable_irrelevant subclass). Qed.
 
+(* ---------------------------------------------------------------------- *)
+(* What a robot attribute is CALLED decides nothing, except a leading        *)
+(* underscore and being exactly "logger".                                    *)
+(* ---------------------------------------------------------------------- *)
+
+(* The exclusion test of _collect_injectables, [n in self._exclude_from_injection]
+   with the list ["logger"], holds for that one name and no other -- not for
+   its substrings (log, g, er, logg ...), not for names containing it, not for
+   case variants. *)
+Theorem C08_excluded_iff_logger : forall n, excluded n = true <-> n = "logger".
+Proof. exact excluded_iff_logger. Qed.
+
+(* So for ANY public name n other than "logger" (dir() has distinct names) the
+   robot's injectable under n is the value of the dir() entry n, unless that is
+   a property/tunable or a bound method. *)
+Theorem C08_robot_injectables_by_name : forall r n a,
+  NoDup (map ra_name (r_dir r)) ->
+  dir_entry r n = Some a -> is_private n = false -> n <> "logger" ->
+  get (robot_injectables r) n = if kind_injectable (ra_kind a) then ra_value a else None.
+Proof. exact robot_injectables_by_name. Qed.
+
+(* Names are treated alike: renaming the robot's attributes by any f that
+   preserves "starts with an underscore" and "is exactly logger" renames the
+   collected injectables and changes nothing else. *)
+Theorem C08_names_treated_alike : forall f dir,
+  (forall a, In a dir -> is_private (f (ra_name a)) = is_private (ra_name a) /\
+                         excluded (f (ra_name a)) = excluded (ra_name a)) ->
+  collect_injectables (map (rename_attr f) dir) =
+  map (fun kv => (f (fst kv), snd kv)) (collect_injectables dir).
+Proof. exact collect_rename. Qed.
+
+(* Delivery with no hypothesis on the name beyond "public": when the robot
+   stores o under n (not as a property/tunable or bound method), every public
+   unset attribute n of every component is o at the first setup() and at the
+   end ([comp_has d n = false] already rules out n = "logger", which the
+   framework assigns itself) ... *)
+Theorem C08_robot_attr_by_name_delivered : forall r s, startup subclass r = Ok s ->
+  NoDup (map ra_name (r_dir r)) -> NoDup (map fst (r_hints r)) ->
+  forall c d n h a o, In (c, d) (components r) -> In (n, h) (k_hints (c_class d)) ->
+    is_private n = false -> comp_has d n = false ->
+    dir_entry r n = Some a -> kind_injectable (ra_kind a) = true -> ra_value a = Some o ->
+    attr_at r (before_first_setup (trace_of r s)) (TComp c) n = Is (Some o) /\
+    attr_at r (trace_of r s) (TComp c) n = Is (Some o) /\
+    exists T, hint_type h = Some T /\ subclass (ocls o) T = true.
+Proof. exact (robot_attr_by_name_delivered_comp subclass). Qed.
+
+(* ... of every autonomous mode ... *)
+Theorem C08_robot_attr_by_name_delivered_modes : forall r s, startup subclass r = Ok s ->
+  NoDup (map ra_name (r_dir r)) -> NoDup (map fst (r_hints r)) ->
+  forall md n h a o, In md (r_modes r) -> In (n, h) (m_hints md) ->
+    is_private n = false -> mode_has md n = false ->
+    dir_entry r n = Some a -> kind_injectable (ra_kind a) = true -> ra_value a = Some o ->
+    attr_at r (before_first_setup (trace_of r s)) (TMode (m_name md)) n = Is (Some o) /\
+    attr_at r (trace_of r s) (TMode (m_name md)) n = Is (Some o) /\
+    exists T, hint_type h = Some T /\ subclass (ocls o) T = true.
+Proof. exact (robot_attr_by_name_delivered_mode subclass). Qed.
+
+(* ... and every constructor parameter p other than "logger" is passed o. *)
+Theorem C08_robot_attr_by_name_ctor_delivered : forall r s, startup subclass r = Ok s ->
+  NoDup (map ra_name (r_dir r)) -> NoDup (map fst (r_hints r)) ->
+  forall before c d after p h a o, components r = before ++ (c, d) :: after ->
+    In (p, h) (k_init_hints (c_class d)) ->
+    is_private p = false -> p <> "logger" ->
+    dir_entry r p = Some a -> kind_injectable (ra_kind a) = true -> ra_value a = Some o ->
+    exists kw,
+      nth_error (st_comps s) (List.length before)
+        = Some {| cr_name := c; cr_def := d; cr_kwargs := kw |} /\
+      In (p, o) kw /\ exists T, hint_type h = Some T /\ subclass (ocls o) T = true.
+Proof. exact (robot_attr_by_name_ctor_delivered subclass). Qed.
+
+(* The object under the plain name wins over the one under "<c>_<n>" whatever
+   the name looks like, whichever components [cs] exist at that moment ... *)
+Theorem C08_plain_name_wins : forall r cs c n a o,
+  NoDup (map ra_name (r_dir r)) -> NoDup (map fst cs) ->
+  (forall k d, In (k, d) cs -> In (k, d) (components r)) ->
+  is_private n = false -> n <> "logger" ->
+  dir_entry r n = Some a -> kind_injectable (ra_kind a) = true -> ra_value a = Some o ->
+  pick (injectables_with r cs) c n = Some o.
+Proof. exact plain_name_wins. Qed.
+
+(* ... and a well-typed one is never the reason startup fails. *)
+Theorem C08_robot_attr_by_name_serves : forall r cs c n h T a o,
+  NoDup (map ra_name (r_dir r)) -> NoDup (map fst cs) ->
+  (forall k d, In (k, d) cs -> In (k, d) (components r)) ->
+  is_private n = false -> n <> "logger" ->
+  dir_entry r n = Some a -> kind_injectable (ra_kind a) = true -> ra_value a = Some o ->
+  hint_type h = Some T -> subclass (ocls o) T = true ->
+  ~ request_fails subclass (injectables_with r cs) c n h.
+Proof. exact (robot_attr_by_name_serves subclass). Qed.
+
 End C08.
 
 (* ====================================================================== *)
@@ -422,6 +512,80 @@ Example C08_nv_bound_method_not_injected :
     [ {| ra_name := "helper"; ra_kind := KMethod; ra_value := Some o_other |} ]) = Err EInject.
 Proof. vm_compute. reflexivity. Qed.
 
+(* names that resemble "logger": all 19 proper substrings, names containing it,
+   case variants.  Each IS a substring / superstring in Python's sense and none
+   is excluded; a recorder asks for log (attribute and constructor parameter),
+   g, er, logg, loggers, Logger: it gets the robot's objects, log from robot.log
+   although robot.rec_log exists too *)
+Definition logger_substrings : list name :=
+  ["l"; "o"; "g"; "e"; "r"; "lo"; "og"; "gg"; "ge"; "er"; "log"; "ogg"; "gge"; "ger";
+   "logg"; "ogge"; "gger"; "logge"; "ogger"].
+Definition logger_superstrings : list name :=
+  ["loggers"; "logger_"; "logger2"; "xlogger"; "my_logger"; "logger_x"].
+Example C08_nv_logger_like_names_not_excluded :
+  forallb (fun n => str_in n "logger" && negb (excluded n) && negb (is_private n)) logger_substrings = true /\
+  forallb (fun n => str_in "logger" n && negb (excluded n) && negb (is_private n)) logger_superstrings = true /\
+  excluded "Logger" = false /\ excluded "LOGGER" = false /\
+  str_in "logger" "logger" = true /\ excluded "logger" = true.
+Proof. vm_compute. repeat split; reflexivity. Qed.
+
+Definition o_log := {| oid := 9; ocls := 10; otruthy := true |}.
+Definition o_reclog := {| oid := 10; ocls := 10; otruthy := true |}.
+Definition k_rec : classdef :=
+  {| k_cls := 23; k_init_hints := [("log", HType 10); ("ogger", HType 1)];
+     k_hints := [("log", HType 10); ("g", HType 1); ("er", HType 2); ("logg", HType 3);
+                 ("loggers", HType 10); ("Logger", HType 0)];
+     k_preset := []; k_setup := true |}.
+Definition d_rec := {| c_oid := 103; c_truthy := true; c_class := k_rec |}.
+Definition names_dir : list rattr :=
+  [ {| ra_name := "Logger"; ra_kind := KPlain; ra_value := Some o_other |};
+    {| ra_name := "er"; ra_kind := KPlain; ra_value := Some o_empty |};
+    {| ra_name := "g"; ra_kind := KPlain; ra_value := Some o_zero |};
+    {| ra_name := "log"; ra_kind := KPlain; ra_value := Some o_log |};
+    {| ra_name := "logg"; ra_kind := KPlain; ra_value := Some o_list |};
+    {| ra_name := "logger"; ra_kind := KPlain; ra_value := Some o_other |};
+    {| ra_name := "loggers"; ra_kind := KCallable; ra_value := Some o_curve |};
+    {| ra_name := "ogger"; ra_kind := KPlain; ra_value := Some o_zero |};
+    {| ra_name := "rec_log"; ra_kind := KPlain; ra_value := Some o_reclog |} ].
+Definition names_mode : modedef :=
+  {| m_name := "auto"; m_hints := [("log", HType 10); ("er", HType 2)]; m_preset := []; m_setup := false |}.
+Definition names_robot : robot :=
+  {| r_dir := names_dir; r_hints := [("rec", RClass d_rec)]; r_modes := [names_mode] |}.
+Example C08_nv_logger_like_names_injected :
+  startup ex_sub names_robot =
+  Ok {| st_comps := [ {| cr_name := "rec"; cr_def := d_rec;
+                         cr_kwargs := [("log", o_log); ("ogger", o_zero)] |} ];
+        st_updates := [ (TComp "rec", [("log", o_log); ("g", o_zero); ("er", o_empty); ("logg", o_list);
+                                       ("loggers", o_curve); ("Logger", o_other)]);
+                        (TMode "auto", [("log", o_log); ("er", o_empty)]) ] |}.
+Proof. vm_compute. reflexivity. Qed.
+Example C08_nv_by_name_hypotheses :
+  NoDup (map ra_name (r_dir names_robot)) /\ NoDup (map fst (r_hints names_robot)) /\
+  components names_robot = [] ++ ("rec", d_rec) :: [] /\
+  is_private "log" = false /\ "log" <> "logger" /\ comp_has d_rec "log" = false /\
+  mode_has names_mode "log" = false /\
+  dir_entry names_robot "log" = Some {| ra_name := "log"; ra_kind := KPlain; ra_value := Some o_log |} /\
+  get (robot_injectables names_robot) "rec_log" = Some o_reclog /\
+  get (robot_injectables names_robot) "logger" = None.
+Proof.
+  repeat split; try (vm_compute; reflexivity); try discriminate;
+    repeat constructor; simpl; intuition discriminate.
+Qed.
+(* a renaming that meets the hypothesis of C08_names_treated_alike and is not
+   the identity: gearbox -> log *)
+Example C08_nv_rename :
+  let f := fun n => if String.eqb n "gearbox" then "log" else n in
+  let dir := [ {| ra_name := "gearbox"; ra_kind := KPlain; ra_value := Some o_log |};
+               {| ra_name := "logger"; ra_kind := KPlain; ra_value := Some o_other |};
+               {| ra_name := "_x"; ra_kind := KPlain; ra_value := Some o_other |} ] in
+  (forall a, In a dir -> is_private (f (ra_name a)) = is_private (ra_name a) /\
+                         excluded (f (ra_name a)) = excluded (ra_name a)) /\
+  collect_injectables (map (rename_attr f) dir) = [("log", Some o_log)].
+Proof.
+  split; [|vm_compute; reflexivity].
+  intros a [<-|[<-|[<-|[]]]]; vm_compute; split; reflexivity.
+Qed.
+
 Print Assumptions C08_attr_exact.
 Print Assumptions C08_attr_exact_modes.
 Print Assumptions C08_injectables_are_attrs_and_all_components.
@@ -445,3 +609,11 @@ Print Assumptions C08_robot_attr_delivered_modes.
 Print Assumptions C08_robot_attr_ctor_delivered.
 Print Assumptions C08_robot_attr_serves.
 Print Assumptions C08_callable_irrelevant.
+Print Assumptions C08_excluded_iff_logger.
+Print Assumptions C08_robot_injectables_by_name.
+Print Assumptions C08_names_treated_alike.
+Print Assumptions C08_robot_attr_by_name_delivered.
+Print Assumptions C08_robot_attr_by_name_delivered_modes.
+Print Assumptions C08_robot_attr_by_name_ctor_delivered.
+Print Assumptions C08_plain_name_wins.
+Print Assumptions C08_robot_attr_by_name_serves.
